@@ -1,11 +1,16 @@
 import Driver.OpsSteps
 import Driver.OpsValidate
+import Driver.OpsEngine
 
 open Lean Df.Codec
 
 def ops : List (String × (Json → R Json)) :=
   [("step", Df.Ops.opStep),
    ("validate", Df.Ops.opValidate),
+   ("trace", Df.Ops.opTrace),
+   ("dispatch", Df.Ops.opDispatch),
+   ("fault", Df.Ops.opFault),
+   ("linearize", Df.Ops.opLinearize),
    ("ping", fun j => do return Json.mkObj [("ok", encPkg (← decPkg (← j.getObjVal? "pkg")))])]
 
 def handle (line : String) : String :=
